@@ -49,14 +49,17 @@ def canon_coq(v):
     return out
 
 
-def relation_defs_at(q, w):
-    r = q[1][w][3] if w < len(q[1]) else q[2]
-    return c16_wf.relation_defs(r)
+SORTSITE = ("STakeSort", "SWinSort")
+PARTSITE = ("STakePartition", "SWinPartition", "SAggPartition")
+
+
+def relation_at(q, w):
+    return q[1][w][3] if w < len(q[1]) else q[2]
 
 
 def dup_column_tables(q):
-    """cids defined inside tables whose declared columns repeat a RelationColumn (create_a_table_instance
-    de-duplicates them with .unique(), so an instance has fewer columns than the table's closing Select)"""
+    """cids defined inside tables whose declared columns repeat a RelationColumn (before 3b8ac37 create_a_table_instance
+    de-duplicated them with .unique(), so an instance had fewer columns than the table's closing Select: finding F4, fixed)"""
     out = set()
     for t in q[1]:
         cols = t[3][2]
@@ -79,26 +82,6 @@ def rel_param_twice(src):
     return False
 
 
-def paren_body(src, i):
-    """text between the parenthesis at src[i] and its match"""
-    depth = 0
-    for j in range(i, len(src)):
-        if src[j] == "(":
-            depth += 1
-        elif src[j] == ")":
-            depth -= 1
-            if depth == 0:
-                return src[i + 1:j]
-    return src[i + 1:]
-
-
-def group_with_relational_argument(src):
-    for m in re.finditer(r"\bgroup\s*(\{[^}]*\}|[\w.`]+)\s*\(", src):
-        if re.search(r"\b(append|join|remove|intersect|loop)\b", paren_body(src, m.end() - 1)):
-            return True
-    return False
-
-
 def exclusion_in_sub_pipeline(src):
     for m in re.finditer(r"select\s*!\{", src):
         if src[:m.start()].count("(") > src[:m.start()].count(")"):
@@ -106,87 +89,126 @@ def exclusion_in_sub_pipeline(src):
     return False
 
 
-def tableref_cids(q):
-    out = set()
+def carried_sort_droppers(q, w, c):
+    """for every Take / windowed Compute of relation w whose carried sort names id c while c is not visible: the kind of
+    the transform that narrowed c away last ("Select", "Aggregate-in-group", "Aggregate"; None = c never was visible
+    in front of that use)"""
+    r = relation_at(q, w)
+    kinds = set()
+    if r[1][0] != "KPipeline":
+        return kinds
+
+    def walk(p, vis, last):
+        for t in p:
+            k = t[0]
+            if k == "TFrom":
+                vis = vis | set(c16_wf.tref_cids(t[1]))
+            elif k == "TJoin":
+                vis = vis | set(c16_wf.tref_cids(t[2]))
+            elif k == "TCompute":
+                if t[3] is not None and c in [x for _, x in t[3][4]] and c not in vis:
+                    kinds.add(last)
+                vis = vis | {t[1]}
+            elif k == "TTake":
+                if c in [x for _, x in t[3]] and c not in vis:
+                    kinds.add(last)
+            elif k == "TSelect":
+                if c in vis and c not in t[1]:
+                    last = "Select"
+                vis = set(t[1])
+            elif k == "TAggregate":
+                nv = set(t[1]) | set(t[2])
+                if c in vis and c not in nv:
+                    last = "Aggregate-in-group" if t[1] else "Aggregate"
+                vis = nv
+            elif k == "TLoop":
+                walk(t[1], set(vis), last)
+    walk(r[1][1], set(), None)
+    return kinds
+
+
+F1_DROPPERS = {"Select", "Aggregate-in-group"}
+
+
+def excluded_from_columns(q, w):
+    """From-instance columns of the tables that relation w instantiates which those tables' closing Select does not
+    export (what `select !{..}` -- or any narrowing select -- inside a sub-pipeline removed)"""
+    r = relation_at(q, w)
+    if r[1][0] != "KPipeline":
+        return set()
+    used = set()
 
     def walk(p):
         for t in p:
             if t[0] in ("TFrom", "TAppend"):
-                out.update(c for _, c in t[1][2])
+                used.add(t[1][1])
             elif t[0] == "TJoin":
-                out.update(c for _, c in t[2][2])
+                used.add(t[2][1])
             elif t[0] == "TLoop":
                 walk(t[1])
+    walk(r[1][1])
+    out = set()
     for t in q[1]:
-        if t[3][1][0] == "KPipeline":
-            walk(t[3][1][1])
-    if q[2][1][0] == "KPipeline":
-        walk(q[2][1][1])
+        if t[1] in used and t[3][1][0] == "KPipeline":
+            p = t[3][1][1]
+            if p and p[0][0] == "TFrom" and p[-1][0] == "TSelect":
+                out |= set(c16_wf.tref_cids(p[0][1])) - set(p[-1][1])
     return out
 
 
 def classify_diags(q, diags, src=""):
-    """known-finding id explaining ALL diagnostics of this RQ, or None.
-    F2 is returned for its class as well; it is recorded as fixed, so Check.disagreement reports it as a VIOLATION."""
+    """id of the OPEN finding that explains ALL diagnostics of this RQ, or None (= VIOLATION).  Only F1, F6 and F7 can be
+    returned: the classes of the repaired findings (F2, F4, F5, the plain-aggregate half of F1) are not tolerated and
+    are named by regression_of() in the violation text."""
     if not diags:
         return None
-    sortsite = ("STakeSort", "SWinSort")
-    partsite = ("STakePartition", "SWinPartition", "SAggPartition")
     if all(d[0] in ("DForeign", "DNotVisible") for d in diags) and rel_param_twice(src):
         return F6
     f1 = [d for d in diags if c16_wf.lax_diag(d)]
-    f5 = [d for d in diags if d[0] == "DForeign" and d[2] in partsite] if group_with_relational_argument(src) else []
-    f2 = [d for d in diags if d[0] == "DForeign" and d[2] in sortsite]
-    rest = [d for d in diags if d not in f1 and d not in f2 and d not in f5]
-    if f2:
-        return F2
+    rest = [d for d in diags if d not in f1]
+    for d in f1:
+        kinds = carried_sort_droppers(q, d[1], d[3])
+        if not kinds or not kinds <= F1_DROPPERS:
+            return None
     if rest:
-        # F4: an id of a sub-pipeline whose declared columns repeat a name (or contain two unnamed columns) escapes
-        # un-redirected into the pipeline that instantiates it
-        leaked = dup_column_tables(q)
-        if all(d[0] == "DForeign" and d[3] in leaked for d in rest):
-            return F4
         # F7: a column excluded by `select !{..}` inside a joined sub-pipeline is still resolvable from outside and is
-        # bound to the sub-pipeline's own table-instance column
-        if exclusion_in_sub_pipeline(src) and all(d[0] == "DForeign" and d[3] in tableref_cids(q) for d in rest):
+        # bound to the sub-pipeline's own From column
+        if exclusion_in_sub_pipeline(src) and all(d[0] == "DForeign" and d[3] in excluded_from_columns(q, d[1]) for d in rest):
             return F7
         return None
-    if f5:
-        return F5
     return F1
 
 
-def has_multi_input_relation(src):
-    """a join / append inside parentheses: a relation with several inputs that is instantiated as one input
-    (let-table `let x = (from a | join b ..)` or aliased sub-pipeline `from x = (from a | join b ..)`)"""
-    depth = 0
-    i = 0
-    instr = None
-    while i < len(src):
-        ch = src[i]
-        if instr:
-            if ch == instr:
-                instr = None
-        elif ch in "\"'":
-            instr = ch
-        elif ch in "([{":
-            depth += 1
-        elif ch in ")]}":
-            depth -= 1
-        elif depth >= 1 and (src.startswith("join", i) or src.startswith("append", i)) and (i == 0 or not (src[i - 1].isalnum() or src[i - 1] == "_")):
-            return True
-        i += 1
-    return False
+def regression_of(q, diags, src=""):
+    """names of repaired findings whose class the diagnostics fall into (for the text of the violation only)"""
+    out = []
+    if any(d[0] == "DForeign" and d[2] in SORTSITE for d in diags):
+        out.append(F2)
+    if any(d[0] == "DForeign" and d[2] in PARTSITE for d in diags):
+        out.append(F5)
+    leaked = dup_column_tables(q)
+    if any(d[0] == "DForeign" and d[2] not in SORTSITE + PARTSITE and d[3] in leaked for d in diags):
+        out.append(F4)
+    if any(c16_wf.lax_diag(d) and "Aggregate" in carried_sort_droppers(q, d[1], d[3]) for d in diags):
+        out.append(F1 + " (the plain-aggregate half, repaired by 8d54bf7)")
+    return out
+
+
+def regression_text(ids):
+    return "" if not ids else " -- REGRESSION: this is the class of repaired finding(s) " + ", ".join(ids)
 
 
 def classify_lowerer_failure(case):
-    p = case.get("panic") or {}
-    if "cannot find cid by id=" in p.get("msg", "") and "lowering.rs" in p.get("loc", ""):
-        if rel_param_twice(case["program"]):
-            return F6
-        if has_multi_input_relation(case["program"]):
-            return F3
+    """a panic inside semantic/lowering.rs or one of its `internal compiler error`s: no open finding covers any
+    (F3's panic was turned into a compile error by 7911778; the programs of F6 no longer reach it either)"""
     return None
+
+
+def lowerer_regression(case):
+    p = case.get("panic") or {}
+    if "cannot find cid by id=" in p.get("msg", ""):
+        return [F3]
+    return []
 
 
 def programs(ck):
@@ -219,6 +241,7 @@ def run():
     # ---------------------------------------------------------------- 1. the implementation's RQ (and its JSON round trip)
     ans = harness("c16_rq", [{"src": p} for p in progs])
     accepted = []   # (program, q)
+    rawjson = {}    # program -> RQ JSON as emitted
     for p, a in zip(progs, ans):
         if "ok" in a:
             try:
@@ -228,6 +251,7 @@ def run():
                 ck.violation("RQ JSON has a node the model does not know (RQ definition changed?): %s" % ex, {"program": p, "error": str(ex)})
                 continue
             accepted.append((p, q))
+            rawjson[p] = a["ok"]
             # JSON round trip: same value, same normal form
             ck.count("rq-json-roundtrip", p)
             if "rt" not in a:
@@ -246,13 +270,18 @@ def run():
                 ck.count("lowerer-internal", p)
                 ck.disagreement("the Lowerer's own id lookup failed (internal compiler error) on a generated program",
                                 {"program": p, "errors": reasons}, classify_lowerer_failure)
+            elif "cannot refer to column" in reasons and "of this table by name" in reasons:
+                # what lookup_cid reports since 7911778 instead of panicking (F3, fixed): no RQ is emitted
+                ck.stat("rq-wf", "rejected:lookup_cid-by-name(was F3's panic)")
         elif "panic" in a:
             loc = a["panic"].get("loc", "")
             if "semantic/lowering.rs" in loc:
                 ck.count("lowerer-internal", p)
                 ck.stat("lowerer-internal", "panic:" + loc.split("/src/")[-1])
-                ck.disagreement("panic inside the Lowerer: %s (%s)" % (a["panic"].get("msg", "")[:120], loc),
-                                {"program": p, "panic": a["panic"]}, classify_lowerer_failure)
+                case = {"program": p, "panic": a["panic"]}
+                reg = lowerer_regression(case)
+                ck.disagreement("panic inside the Lowerer: %s (%s)%s" % (a["panic"].get("msg", "")[:120], loc, regression_text(reg)),
+                                case, classify_lowerer_failure)
             else:
                 ck.stat("rq-wf", "resolver-panic-elsewhere(C12):" + loc.split("/src/")[-1])
         else:
@@ -269,7 +298,7 @@ def run():
         ck.stat("rq-wf", "wf" if not d else ("lax-only(F1)" if all(c16_wf.lax_diag(x) for x in d) else "NOT-WF"))
         if d:
             case = {"program": p, "diagnostics": [list(x) for x in d], "rq": rqcoq.to_coq(q)}
-            ck.disagreement("the resolver emitted an RQ that violates the property: %s" % (d[:4],), case,
+            ck.disagreement("the resolver emitted an RQ that violates the property: %s%s" % (d[:4], regression_text(regression_of(q, d, p))), case,
                             lambda c, q=q, d=d: classify_diags(q, d, c.get("program", "")))
 
     # ---------------------------------------------------------------- 3. the same predicate evaluated in Coq, cross-validated
@@ -310,26 +339,91 @@ def run():
         else:
             ck.stat("backend-lookups", "error")
 
+    # ---------------------------------------------------------------- 4b. identifiers are only names: the staged API's second half
+    # (json::to_rq -> rq_to_sql; AnchorContext::of loads its id generators from the query, utils/id_gen.rs) must give the same SQL
+    # for the same RQ under an order-preserving renaming of its column and table ids, and must refuse -- not overflow on --
+    # an id above usize::MAX / 2 (79f4a51; Props/C16.v idgen_load_*)
+    USIZE_MAX = (1 << 64) - 1
+    sel = [(p, q) for p, q in accepted if not py[p]][:ck.n(250, 2500)]
+    if sel:
+        K = 1 + ck.rng.randrange(1, 5000)
+        base = harness("c16_rq2sql", [{"rq": rawjson[p], "target": "sql.sqlite"} for p, _ in sel])
+        ren = harness("c16_rq2sql", [{"rq": rqcoq.rename_ids(rawjson[p], lambda c: 2 * c + K, lambda t: 3 * t + K), "target": "sql.sqlite"} for p, _ in sel])
+        for (p, q), b, r in zip(sel, base, ren):
+            ck.count("id-renaming", p)
+            kb = next((k for k in ("ok", "err", "panic") if k in b), "other")
+            kr = next((k for k in ("ok", "err", "panic") if k in r), "other")
+            ck.stat("id-renaming", "same:" + kb if (kb == kr and b.get("ok") == r.get("ok")) else "DIFFERENT")
+            if kb != kr or b.get("ok") != r.get("ok"):
+                ck.violation("rq_to_sql gives a different result for the same RQ after an order-preserving renaming of its ids (c -> 2c+%d, t -> 3t+%d)" % (K, K),
+                             {"program": p, "before": b, "after": r})
+        # the bounds of IdGenerator::load
+        small = sel[:ck.n(40, 300)]
+        reqs, meta = [], []
+        for p, q in small:
+            cids = sorted(set(c16_wf.all_defs(q)))
+            tids = [t[1] for t in q[1]]
+            if not cids:
+                continue
+            cm = cids[-1]
+            for what, val in (("max/2", USIZE_MAX // 2), ("max/2+1", USIZE_MAX // 2 + 1), ("max", USIZE_MAX)):
+                reqs.append({"rq": rqcoq.rename_ids(rawjson[p], lambda c, cm=cm, val=val: val if c == cm else c, lambda t: t), "target": "sql.sqlite"})
+                meta.append((p, "cid", what))
+            if tids:
+                tm = max(tids)
+                for what, val in (("max/2", USIZE_MAX // 2), ("max/2+1", USIZE_MAX // 2 + 1), ("max", USIZE_MAX)):
+                    reqs.append({"rq": rqcoq.rename_ids(rawjson[p], lambda c: c, lambda t, tm=tm, val=val: val if t == tm else t), "target": "sql.sqlite"})
+                    meta.append((p, "tid", what))
+        base_of = dict((p, b) for (p, _), b in zip(sel, base))
+        for (p, kind, what), a in zip(meta, harness("c16_rq2sql", reqs) if reqs else []):
+            ck.count("id-load-bounds", p + "|" + kind + "|" + what)
+            b = base_of[p]
+            if what == "max/2":
+                good = ("ok" in a and a.get("ok") == b.get("ok")) or ("ok" not in b and "panic" not in a and "abort" not in a)
+                exp = "the same SQL as with small ids"
+            else:
+                reasons = " | ".join(e.get("reason", "") for e in a.get("err", [])) if "err" in a else ""
+                good = "too large" in reasons
+                exp = "the error `id .. is too large`"
+            ck.stat("id-load-bounds", "%s=%s:%s" % (kind, what, "as-modelled" if good else "UNEXPECTED"))
+            if not good:
+                ck.violation("IdGenerator::load on an RQ whose largest %s is usize::%s: expected %s (Model/Lowerer.v idgen_load)" % (kind, what.upper(), exp),
+                             {"program": p, "kind": kind, "id": what, "answer": a})
+
     # ---------------------------------------------------------------- 5. replay the recorded findings
+    not_reproduced = []
     for f in ck.findings:
         src = (f.get("replay") or {}).get("src")
         if not src or replay:
             continue
-        # fixed findings are replayed as well: if the defect is back, the classifier names a finding that is not open
-        # any more and Check.disagreement turns it into a VIOLATION
+        is_open = f.get("status", "open") == "open"
+        # fixed findings are replayed as well: no classifier returns their id, so a defect that is back is a VIOLATION
         a = harness("c16_rq", [{"src": src}], shards=1)[0]
         ck.count("finding-replay", src)
+        got = None
         if "ok" in a:
             q = rqcoq.norm(a["ok"])
             d = c16_wf.rq_diags(q)
             if d:
-                ck.disagreement("recorded finding reproduces", {"program": src, "diagnostics": [list(x) for x in d]}, lambda c, q=q, d=d: classify_diags(q, d, c.get("program", "")))
-            else:
-                ck.stat("finding-replay", "no-longer-reproduces:" + f["id"])
+                got = ck.disagreement("recorded finding %s (%s) reproduces: %s%s" % (f["id"], f.get("status", "open"), d[:4], regression_text(regression_of(q, d, src))),
+                                      {"program": src, "diagnostics": [list(x) for x in d]}, lambda c, q=q, d=d: classify_diags(q, d, c.get("program", "")))
+                got = got or "violation"
         elif "panic" in a:
-            ck.disagreement("recorded finding reproduces", {"program": src, "panic": a["panic"]}, classify_lowerer_failure)
-        else:
+            case = {"program": src, "panic": a["panic"]}
+            ck.disagreement("recorded finding %s (%s) reproduces: panic %s%s" % (f["id"], f.get("status", "open"), a["panic"].get("msg", "")[:100], regression_text(lowerer_regression(case))),
+                            case, classify_lowerer_failure)
+            got = "violation"
+        if got is None:
             ck.stat("finding-replay", "no-longer-reproduces:" + f["id"])
+            if is_open:
+                not_reproduced.append(f["id"])
+        elif is_open and got != f["id"]:
+            ck.stat("finding-replay", "open-finding-replay-classified-as:%s:%s" % (f["id"], got))
+    # an OPEN finding whose own replay is clean has probably been repaired: it has to be audited (status -> fixed, classifier
+    # narrowed), not carried along.  Not a violation of the property, so only reported (evidence + a NOTE line).
+    ck.coverage["open_findings_whose_replay_no_longer_fails"] = not_reproduced
+    for fid in not_reproduced:
+        print("NOTE: property=C16 the replay of OPEN finding %s no longer fails -- repaired? audit known_findings.d/C16.json" % fid)
 
     for p, q in accepted[:6]:
         ck.sample({"program": p, "tables": len(q[1]), "diagnostics": [list(x) for x in py[p]]})
